@@ -817,7 +817,198 @@ def check_C16(chk):
                         'duplicate names among --arg / --argjson and $__prog_args / $ENV are not modelled']
 
 
-CHECKS = {'C16': check_C16, 'C20': check_C20, 'C07': check_C07, 'C13': check_C13, 'C12': check_C12, 'C17': check_C17, 'C18': check_C18, 'C15': check_C15, 'C09': check_C09, 'C08': check_C08, 'C11': check_C11, 'C10': check_C10, 'C01': check_C01, 'C02': check_C02, 'C03': check_C03}
+def formats_cfg(suite, size):
+    return f'SPECIFICATION Spec\nCONSTANTS\n  Suite = "{suite}"\n  Size = {size}\nINVARIANTS TypeOK SpecRoundTrip\nCHECK_DEADLOCK FALSE\n'
+
+
+def cbor_decode(b, i=0):
+    """independent CBOR reader (RFC 8949) -> (python value, next index); floats as float, big numbers as int"""
+    import struct
+    ib = b[i]; major, ai = ib >> 5, ib & 31; i += 1
+    if ai < 24: n = ai
+    elif ai == 24: n = b[i]; i += 1
+    elif ai == 25: n = int.from_bytes(b[i:i + 2], 'big'); i += 2
+    elif ai == 26: n = int.from_bytes(b[i:i + 4], 'big'); i += 4
+    elif ai == 27: n = int.from_bytes(b[i:i + 8], 'big'); i += 8
+    else: raise ValueError('indefinite / reserved')
+    if major == 0: return n, i
+    if major == 1: return -1 - n, i
+    if major == 2: return ('bytes', bytes(b[i:i + n])), i + n
+    if major == 3: return bytes(b[i:i + n]).decode('utf-8'), i + n
+    if major == 4:
+        out = []
+        for _ in range(n):
+            v, i = cbor_decode(b, i); out.append(v)
+        return out, i
+    if major == 5:
+        out = []
+        for _ in range(n):
+            k, i = cbor_decode(b, i); v, i = cbor_decode(b, i); out.append((k, v))
+        return ('map', out), i
+    if major == 6:
+        v, j = cbor_decode(b, i)
+        if n == 2: return int.from_bytes(v[1], 'big'), j
+        if n == 3: return -1 - int.from_bytes(v[1], 'big'), j
+        raise ValueError('tag')
+    if ai == 20: return False, i - 0
+    if ai == 21: return True, i
+    if ai == 22: return None, i
+    if ai == 25: return struct.unpack('>e', b[i - 2:i])[0], i
+    if ai == 26: return struct.unpack('>f', b[i - 4:i])[0], i
+    if ai == 27: return struct.unpack('>d', b[i - 8:i])[0], i
+    raise ValueError('simple')
+
+
+def py_of(v):
+    """interchange value -> python value comparable with the independent readers"""
+    t = v['t']
+    if t == 'int': return v['n']
+    if t == 'big': return int(''.join(map(str, v['d'])) or '0') * (-1 if v['neg'] else 1)
+    if t == 'flt': return v['p'] / v['q']
+    if t == 'nz': return -0.0
+    if t == 'fsp': return {'nan': float('nan'), 'inf': float('inf')}.get(v['k'], float('-inf'))
+    if t == 'dec': return float(''.join(chr(c) for c in v['ds']))
+    if t == 'str': return ''.join(chr(c) for c in v['c'])
+    if t == 'bytes': return ('bytes', bytes(v['y']))
+    if t == 'arr': return [py_of(x) for x in v['a']]
+    if t == 'obj': return ('map', [(py_of(k), py_of(x)) for k, x in v['o']])
+    if t == 'null': return None
+    if t == 'bool': return v['b']
+    raise ValueError(t)
+
+
+def same(a, b):
+    import math
+    if isinstance(a, float) and isinstance(b, float):
+        return (math.isnan(a) and math.isnan(b)) or (a == b and math.copysign(1, a) == math.copysign(1, b))
+    if isinstance(a, bool) != isinstance(b, bool): return False
+    if isinstance(a, (list, tuple)) and isinstance(b, (list, tuple)) and len(a) == len(b) and type(a) == type(b):
+        return all(same(x, y) for x, y in zip(a, b))
+    if isinstance(a, float) != isinstance(b, float): return False
+    return a == b
+
+
+def check_C14(chk):
+    import subprocess, csv, io, tomllib, xml.dom.minidom
+    q = chk.tier == 'quick'
+    chk.rule = ('per format, TLC enumerates the values of the documented domain and values just outside; each state carries the round trip to run, the expected result and whether the '
+                'specified writer/reader pair of JaqFormats round-trips it (invariant SpecRoundTrip). yaml-str: every string of length <= 2 over 40 characters (signs, dot, digits, e, n, a, blank, '
+                'tab, : # ~ , [ ] { } quotes, line breaks, indicators, NEL, BOM) (thorough: <= 3 over 20) plus words of <= 2 (3) tokens (+ - . 1 0 e inf nan null true ~ blank : # --- ... a x NaN '
+                'INF Null no _ o b), each as scalar, array element, key and value: toyaml|fromyaml = identity. yaml-val: all number kinds, byte strings, non-string keys, nesting. csv: rows of 1-2 '
+                '(3) scalars from 27 fields (quotes, commas, line breaks, number-like and boolean-like strings, empty string): tocsv|[fromcsv]. tsv: rows of strings of the domain. toml: 15 keys '
+                '(bare, quoted, empty, dotted, unicode) x 16 leaves x five table shapes, values outside the domain rejected. cbor: integers at every head-size boundary up to 2^128, floats, text, '
+                'bytes, containers at length boundaries, non-string keys; the encoded head of integers is specified exactly. xml: 400 documents from 20 items: fromxml|toxml|fromxml = fromxml. '
+                'Then, on the same values: `--to F` / `--from F` on the command line (also indented YAML) agree with the filters, and independent readers (Python tomllib, csv, '
+                'xml.dom.minidom, a CBOR decoder written for this check) read what jaq writes.')
+    size = 1 if q else 2
+    vecs = {}
+    for suite in ('yaml-str', 'yaml-val', 'csv', 'tsv', 'toml', 'cbor', 'xml'):
+        sz = size if suite != 'yaml-str' else (2 if q else 3)
+        run_suite(chk, suite, 'MC_Formats', formats_cfg(suite, sz), timeout=7200)
+        vecs[suite] = [json.loads(l) for l in open(os.path.join(W, f'vec-{chk.pid}-{suite}.ndjson'))]
+    vlib.build_jaq()
+    rng = random.Random(chk.seed)
+
+    def jaq(args, inp=b''):
+        p = subprocess.run([vlib.JAQ] + args, input=inp, stdout=subprocess.PIPE, stderr=subprocess.PIPE)
+        return p.returncode, p.stdout, p.stderr.decode(errors='replace')[:300]
+
+    def xjon(v):
+        # XJON text of an interchange value via the harness printer is not needed: jaq reads JSON; values with bytes / special floats are given as filters
+        rc, out, err = jaq(['-n', '-c', '$v'], b'')
+        return out
+    ncli = 0
+    def val_filter(v):
+        """a jq expression that builds the value"""
+        t = v['t']
+        if t in ('int', 'big', 'flt', 'nz', 'dec'):
+            x = py_of(v)
+            return ('-0.0' if t == 'nz' else ''.join(chr(c) for c in v['ds']) if t == 'dec' else repr(x))
+        if t == 'fsp': return {'nan': 'nan', 'inf': 'infinite'}.get(v['k'], '-infinite')
+        if t == 'str': return json.dumps(''.join(chr(c) for c in v['c']), ensure_ascii=False)
+        if t == 'bytes': return '([' + ','.join(map(str, v['y'])) + '] | tobytes)'
+        if t == 'arr': return '[' + ', '.join(val_filter(x) for x in v['a']) + ']'
+        if t == 'obj': return '({} ' + ''.join(f'| .[{val_filter(k)}] = {val_filter(x)} ' for k, x in v['o']) + ')'
+        if t == 'null': return 'null'
+        return 'true' if v['b'] else 'false'
+    # command line vs filters, and independent readers
+    def sample(xs, n):
+        xs = list(xs)
+        return xs if len(xs) <= n else rng.sample(xs, n)
+    for fmt, suite, nmax in (('yaml', 'yaml-val', 100), ('yaml', 'yaml-str', 150 if q else 1500), ('toml', 'toml', 150 if q else 900), ('cbor', 'cbor', 200), ('csv', 'csv', 150 if q else 800), ('tsv', 'tsv', 100 if q else 420)):
+        for vec in sample([v for v in vecs[suite] if v['expect']['e']['k'] == 'ok' and v['vars'] and v['vars'][0][0] == 's'], nmax):
+            v = vec['vars'][0][1]
+            if fmt == 'toml' and not (v['t'] == 'obj'):
+                continue
+            if fmt == 'toml' and 'tojson' in json.dumps(vec['prog']):
+                continue
+            f = '(' + val_filter(v) + ')'
+            rc1, lib, e1 = jaq(['-n', '-j', f + ' | to' + fmt])
+            opts = [['--to', fmt]] + ([['--to', fmt, '-c']] if fmt == 'yaml' else [])
+            ncli += 1
+            for o in opts:
+                rc2, cli, e2 = jaq(['-n', f] + o)
+                if rc1 != 0 or rc2 != 0:
+                    chk.violation(f'cli-{fmt}-fail:{f}', f'`jaq -n {f!r} {" ".join(o)}` (status {rc2}: {e2}) or `| to{fmt}` (status {rc1}: {e1}) failed on a value of the domain', {'filter': f})
+                    break
+                # read back with --from: the same value (compared as XJON text of both)
+                rc3, back, e3 = jaq(['--from', fmt, '-c', '.'], cli)
+                rc4, want, e4 = jaq(['-n', '-c', f + ' | to' + fmt + ' | from' + fmt])
+                if rc3 != 0 or back != want:
+                    chk.violation(f'cli-{fmt}-read:{f}:{o}', f'`jaq -n {f!r} {" ".join(o)} | jaq --from {fmt} -c .` gives {back[:200]!r} (status {rc3} {e3}); the filters give {want[:200]!r}', {'filter': f, 'opts': o})
+                if o == ['--to', fmt, '-c'] or (fmt != 'yaml'):
+                    body = cli
+                    if fmt == 'yaml':
+                        body = cli.replace(b'---\n', b'', 1)
+                        body = body[:-len(b'...\n')] if body.endswith(b'...\n') else body
+                    if body.rstrip(b'\n') != lib.rstrip(b'\n'):
+                        chk.violation(f'cli-{fmt}-text:{f}', f'`--to {fmt}` writes {cli[:200]!r}, the filter to{fmt} {lib[:200]!r}', {'filter': f})
+            # independent readers of the filter`s output
+            try:
+                if fmt == 'toml':
+                    got = tomllib.loads(lib.decode())
+                    def conv(x):
+                        return ('map', sorted(((k, conv(y)) for k, y in x.items()), key=lambda kv: kv[0])) if isinstance(x, dict) else [conv(y) for y in x] if isinstance(x, list) else x
+                    def srt(x):
+                        return ('map', sorted(((k, srt(y)) for k, y in x[1]), key=lambda kv: kv[0])) if isinstance(x, tuple) and x[0] == 'map' else [srt(y) for y in x] if isinstance(x, list) else x
+                    if not same(conv(got), srt(py_of(v))):
+                        chk.violation(f'toml-reader:{f}', f'Python tomllib reads {lib[:200]!r} as {got!r}, not as the value written', {'filter': f})
+                elif fmt == 'cbor':
+                    got, end = cbor_decode(lib)
+                    if end != len(lib) or not same(got, py_of(v)):
+                        chk.violation(f'cbor-reader:{f}', f'an independent CBOR reader reads {lib[:60]!r} as {got!r}, not as the value written', {'filter': f})
+                elif fmt == 'csv':
+                    rows = list(csv.reader(io.StringIO(lib.decode(), newline='')))
+                    want = [['' if x is None else ('true' if x is True else 'false' if x is False else x if isinstance(x, str) else None) for x in py_of(v)]]
+                    if len(rows) != 1 or len(rows[0]) != len(want[0]) or any(w is not None and w != g for w, g in zip(want[0], rows[0])):
+                        chk.violation(f'csv-reader:{f}', f'Python csv reads {lib[:200]!r} as {rows!r}, not as the row written', {'filter': f})
+            except Exception as e:
+                chk.violation(f'{fmt}-reader-fail:{f}', f'what to{fmt} writes for {f} is not well-formed for an independent reader: {lib[:200]!r}: {e}', {'filter': f})
+    # XML: what toxml writes is well-formed for an independent reader
+    for vec in sample(vecs['xml'], 120 if q else 422):
+        doc = ''.join(chr(c) for c in vec['vars'][0][1]['c'])
+        rc, out, err = jaq(['-n', '-j', json.dumps(doc) + ' | [fromxml | toxml] | add'])
+        ncli += 1
+        if rc != 0:
+            chk.violation(f'xml-fail:{doc}', f'fromxml | toxml failed on {doc!r}: {err}', {'doc': doc})
+            continue
+        try:
+            xml.dom.minidom.parseString(out)
+        except Exception as e:
+            chk.violation(f'xml-reader:{doc}', f'what toxml writes for {doc!r} is not well-formed: {out[:200]!r}: {e}', {'doc': doc})
+        rc2, cli, e2 = jaq(['--from', 'xml', '--to', 'xml', '-j', '.'], doc.encode())
+        if rc2 != 0 or cli != out:
+            chk.violation(f'cli-xml:{doc}', f'`--from xml --to xml` writes {cli[:200]!r} for {doc!r}, the filters {out[:200]!r}', {'doc': doc})
+    chk.evaluations += ncli
+    chk.traces += ncli
+    chk.extra['cli_and_reader_cases'] = ncli
+    chk.assumptions += ['YAML: no independent YAML reader is installed; well-formedness of YAML output is judged by jaq`s own reader only. The plain-scalar rules are those of YAML 1.2.2 (one line, flow context) and the core schema plus the reader`s extensions (0b, signed radix forms)',
+                        'tokenisation of YAML, TOML, XML and CBOR framing are third-party parsers: only scalar decisions, domains and round trips are specified',
+                        'TOML: decimal literals beyond the range of a double and integers beyond 64 bits are written but not read back (documented); CBOR: invalid UTF-8 in text and the spelling of decimal literals are the documented exceptions',
+                        'XML documents come from a generator over 20 items, not from mutations of the repository`s XHTML examples']
+
+
+CHECKS = {'C14': check_C14, 'C16': check_C16, 'C20': check_C20, 'C07': check_C07, 'C13': check_C13, 'C12': check_C12, 'C17': check_C17, 'C18': check_C18, 'C15': check_C15, 'C09': check_C09, 'C08': check_C08, 'C11': check_C11, 'C10': check_C10, 'C01': check_C01, 'C02': check_C02, 'C03': check_C03}
 
 
 def main():
